@@ -133,15 +133,14 @@ def lgammaBig (y : Rat) : I :=
   let s11 := s10 + term 11
   I.add base (I.mk' (ratMin s10 s11) (ratMax s10 s11))
 
-/-- log Γ(x) for rational x > 0: shift up to ≥ 20 with Γ(x) = Γ(x+n)/∏_{i<n}(x+i) -/
-def lgammaI (x : Rat) : I :=
+/-- log Γ(x) for rational x > 0 by the Stirling series: shift up to ≥ 20 with Γ(x) = Γ(x+n)/∏_{i<n}(x+i).
+(Enveloping property of the Stirling series: textbook, not formalised — used only as a cross-check and as
+a fallback, see `lgammaI` below.) -/
+def lgammaStirling (x : Rat) : I :=
   let n : Nat := if x ≥ 20 then 0 else (20 - x.floor).toNat
   let y := x + (n : Rat)
   let shift := (List.range n).foldl (fun (s : I) i => I.add s (I.logQ (x + (i : Nat)))) (I.ofRat 0)
   I.sub (lgammaBig y) shift
-
-/-- log B(a,b) -/
-def lbetaI (a b : Rat) : I := I.sub (I.add (lgammaI a) (lgammaI b)) (lgammaI (a + b))
 
 /-- Σ_{n≥0} ∏_{j<n} (c+j) x /(d+j) in fixed point (terms decrease: ratio ≤ r < 1), with geometric tail.
 Numerators/denominators are rationals cleared to integers: ratio_n = (cn + n·cd) xn dd / ((dn + n·dd) xd cd). -/
@@ -182,9 +181,6 @@ def betaRegIWith (lb : I) (x a b : Rat) : Option I :=
   if x < (a + 1) / (a + b + 2) then direct x a b
   else (direct (1 - x) b a).map fun v => I.sub (I.ofRat 1) v
 
-/-- regularised incomplete beta I_x(a,b) for rational 0 ≤ x ≤ 1, a, b > 0 -/
-def betaRegI (x a b : Rat) : Option I := betaRegIWith (lbetaI a b) x a b
-
 /-- regularised lower incomplete gamma P(a,x), rational a > 0, x ≥ 0, given `lg` = an enclosure of log Γ(a+1):
 x^a e^{−x}/Γ(a+1) · Σ_{n≥0} x^n/((a+1)…(a+n)) -/
 def gammaRegIWith (lg : I) (a x : Rat) : Option I :=
@@ -218,6 +214,54 @@ def gammaRegIWith (lg : I) (a x : Rat) : Option I :=
   let ser : I := ⟨ratMax 1 ((((s : Rat) - m * m) / (1 + m / (one : Rat))) / (one : Rat)), ((s : Rat) + 2 * (t : Rat) + 1) / (one : Rat)⟩
   let e := I.sub (I.sub (I.scale a (I.logQ x)) (I.ofRat x)) lg
   some (I.mul (I.exp e) ser)
+
+/-- the loop of `gammaRegIWith`'s series branch on its own: (sum, last term, index) in fixed point -/
+def gammaLoop (a x : Rat) : Nat × Nat × Nat :=
+  gammaRegIWith.go a.num.toNat a.den x.num.toNat x.den 100000 0 I.scaleN I.scaleN
+
+/-- the enclosure of the series formed from the loop's result, verbatim from `gammaRegIWith` -/
+def gammaSerOf (p : Nat × Nat × Nat) : I :=
+  let one : Nat := I.scaleN
+  let m : Rat := ((p.2.2 + 2 : Nat) : Rat)
+  ⟨ratMax 1 ((((p.1 : Rat) - m * m) / (1 + m / (one : Rat))) / (one : Rat)),
+    ((p.1 : Rat) + 2 * (p.2.1 : Rat) + 1) / (one : Rat)⟩
+
+/-- the series part of `gammaRegIWith`: `none` when the loop ran out of fuel before the ratio
+dropped to `1/2`, otherwise the interval enclosing Σ x^n/((a+1)…(a+n)) -/
+def gammaSer (a x : Rat) : Option I :=
+  if x / (a + (((gammaLoop a x).2.2 + 1 : Nat) : Rat)) > 1 / 2 then none
+  else some (gammaSerOf (gammaLoop a x))
+
+/-- log Γ(a) for rational a > 0 from the incomplete gamma series itself (no Stirling series):
+Γ(a) = γ(a,X) + Γ(a,X) at X = ⌈2a⌉ + 100, with γ(a,X) = X^a e^(−X)/a · Σ X^n/((a+1)…(a+n)) and
+0 ≤ Γ(a,X) ≤ 2 X^(a−1) e^(−X). Every step has a soundness proof (C08GammaSeries, C08GammaIdentity,
+C08GammaTail, C08LogGamma). -/
+def lgammaS (a : Rat) : Option I :=
+  if a ≤ 0 then none else
+  let X : Rat := (((2 * a).ceil + 100 : Int) : Rat)
+  match gammaSer a X with
+  | none => none
+  | some ser =>
+    -- everything in the log domain (X^a e^(−X) is far below the absolute resolution of `I.exp`)
+    let lx := I.logQ X
+    let L := I.add (I.sub (I.sub (I.scale a lx) (I.ofRat X)) (I.logQ a)) (I.log ser)   -- ∋ log γ(a,X)
+    -- log Γ(a) = log γ + log(1 + T/γ) ≤ log γ + T/γ with T = Γ(a,X) ≤ 2 X^(a−1) e^(−X)
+    let e2 := I.sub (I.add (I.sub (I.scale (a - 1) lx) (I.ofRat X)) (I.logQ 2)) L
+    let u := (I.exp ⟨e2.hi, e2.hi⟩).hi
+    some ⟨L.lo, L.hi + u⟩
+
+/-- log Γ(x) for rational x > 0: the proved series enclosure `lgammaS`; the Stirling enclosure only if the
+series loop ran out of fuel (never observed; the drivers tag such cases `stirling-fallback`). -/
+def lgammaI (x : Rat) : I :=
+  match lgammaS x with
+  | some e => e
+  | none => lgammaStirling x
+
+/-- log B(a,b) -/
+def lbetaI (a b : Rat) : I := I.sub (I.add (lgammaI a) (lgammaI b)) (lgammaI (a + b))
+
+/-- regularised incomplete beta I_x(a,b) for rational 0 ≤ x ≤ 1, a, b > 0 -/
+def betaRegI (x a b : Rat) : Option I := betaRegIWith (lbetaI a b) x a b
 
 def gammaRegI (a x : Rat) : Option I := gammaRegIWith (lgammaI (a + 1)) a x
 
